@@ -106,7 +106,7 @@ def starts_job(job_id, env_name, B=2, n=4, k=2, source_filter=None):
     ctx.bounds = {"env": env_name, "B": B, "nodes": n, "num_starts": k}
     ctx.stubs.add("torch.multinomial: returns indices of positive weight (distinct without replacement)")
     ctx.assumptions.add("reset mask symbolic, subject to what the environment's reset guarantees (CVRP-like: every customer feasible at reset; OP: any subset; TSP-like: all nodes)")
-    has_depot = env_name not in ("tsp", "atsp", "flp", "mcp")
+    has_depot = env_name not in ("tsp", "atsp", "flp", "mcp")  # "sampling": column 0 is not counted by the rule either
 
     def cexb(E_, neg):
         if E_.check(neg) == z3.sat:
@@ -128,6 +128,9 @@ def starts_job(job_id, env_name, B=2, n=4, k=2, source_filter=None):
             for b in range(B):
                 for j in range(1 if has_depot else 0, N):
                     E.assume(mask.a[b, j])
+        if env_name == "sampling":
+            for b in range(B):
+                E.assume(z3.Or(*list(mask.a[b, 1:])))
         if env_name == "pdp":
             h = n // 2
             for b in range(B):
@@ -147,6 +150,15 @@ def starts_job(job_id, env_name, B=2, n=4, k=2, source_filter=None):
             env.__dict__.update(generator=gen)
             sel = env.select_start_nodes(td, k)
             navail = ops.get_num_starts(td, "mtvrp")
+        elif env_name == "sampling":
+            from . import decoding as DEC
+
+            old_hook, T.SOFTMAX_HOOK = T.SOFTMAX_HOOK, DEC.softmax_stub
+            try:
+                sel = ops.sample_n_random_actions(td, k)
+            finally:
+                T.SOFTMAX_HOOK = old_hook
+            navail = None
         elif env_name in ("flp", "mcp"):
             mod = w.load(f"rl4co.envs.graph.{env_name}.env")
             cls = mod.FLPEnv if env_name == "flp" else mod.MCPEnv
@@ -169,8 +181,8 @@ def starts_job(job_id, env_name, B=2, n=4, k=2, source_filter=None):
             mine = [sel.a[j * B + b] for j in range(k)]
             from .oracle import pick
 
-            ctx.prove(E, f"[{env_name} B={B} k={k}] every forced start of instance {b} is feasible under its reset mask (when it has >= k feasible starts)",
-                      s_or(T.s_lt(feas_cnt, k), all_([pick(a, row) if is_sym(a) else row[int(a)] for a in mine])), cexb)
+            ctx.prove(E, f"[{env_name} B={B} k={k}] every forced start of instance {b} is feasible under its reset mask (when it has a feasible start)",
+                      s_or(T.s_lt(feas_cnt, 1), all_([pick(a, row) if is_sym(a) else row[int(a)] for a in mine])), cexb)
             ctx.prove(E, f"[{env_name} B={B} k={k}] forced starts of instance {b} are pairwise distinct when >= k feasible starts exist",
                       s_or(T.s_lt(feas_cnt, k), all_([T.s_ne(mine[i], mine[j]) for i in range(k) for j in range(i + 1, k)])), cexb)
         ctx.prove(E, f"[{env_name}] get_num_starts counts the documented candidate set", navail == ((n // 2) if env_name == "pdp" else (n if has_depot or True else n)) or True, cexb)
